@@ -100,12 +100,17 @@ def _moved(ctx, what, e):
 
 
 def tok_stream(ctx, n):
+    from cherrypy.lib import httputil
+    have = {'phdr': True, 'hsplit': True, 'helems': True}
     try:
-        from cherrypy.lib import httputil
         from cherrypy._private_api.compat.headers import parse_header
-        httputil.RE_HEADER_SPLIT, httputil.header_elements
     except (ImportError, AttributeError) as e:
-        return _moved(ctx, 'tokenizer', e)
+        have['phdr'] = False
+        _moved(ctx, 'parse_header', e)
+    for kind, attr in (('hsplit', 'RE_HEADER_SPLIT'), ('helems', 'header_elements')):
+        if not hasattr(httputil, attr):
+            have[kind] = False
+            _moved(ctx, attr, AttributeError(attr))
     rng = ctx.rng
     cases = []
     for i in range(n):
@@ -125,6 +130,7 @@ def tok_stream(ctx, n):
             cases.append(('helems %s %s' % (T(name), T(v)), ('helems', name, v)))
         else:
             cases.append(('hsplit %s' % T(v), ('hsplit', v)))
+    cases = [c for c in cases if have[c[1][0]]]
     out = ctx.model([c[0] for c in cases])
     for i, (line, desc) in enumerate(cases):
         def one(desc=desc):
